@@ -71,6 +71,17 @@ Theorem C10_eval_denotes_partial : forall rx_ok rx_extract cx e,
 Proof. exact eval_denotes_partial. Qed.
 Print Assumptions C10_eval_denotes_partial.
 
+(* nested link bodies (_evaluate_nested), by the induction principle of json: whatever the nesting (arrays of objects, arrays of
+   arrays, objects of arrays of objects, ...), if every leaf string - value or key - evaluates on its own to a JSON value or to
+   UNRESOLVABLE, the body evaluates to UNRESOLVABLE iff some leaf does, and otherwise to the body with EVERY leaf at EVERY depth
+   replaced by its own value (keys rendered by _evaluate_object_key, later duplicates overwriting) *)
+Theorem C10_nested_body_denotes : forall rx_ok rx_extract cx e,
+  leaves_ok rx_ok rx_extract cx e = true ->
+  evaluate rx_ok rx_extract cx e true =
+    if has_unres rx_ok rx_extract cx e then OVal VUnres else OVal (VJ (subst_nested rx_ok rx_extract cx e)).
+Proof. exact nested_body_denotes. Qed.
+Print Assumptions C10_nested_body_denotes.
+
 (* outside that region the statement is false *)
 Theorem C10_eval_denotes_refuted_dotted_name : exists rx_ok rx_extract cx e,
   abnf_ok e = true /\ denote rx_extract cx e = OVal (VJ (JStr [118])) /\
